@@ -8,7 +8,7 @@ PROPERTY = "C09"
 LEVEL = "exploration"
 NEEDS = ()
 EXHAUSTIVE = {"quick": False, "thorough": False}
-REQUIRED_MONITORS = ["reassemble", "fixed_point"]
+REQUIRED_MONITORS = ["listing_reassemble", "reassemble", "fixed_point"]
 RULE = ("one case per DISTINCT TEXT SHAPE of the disassembler (mnemonic, operand kinds, addressing modes incl. the "
         "prefix-implied ones, offset sign, register operands) obtained from the structural heads and de-duplicated per "
         "shard, with operand-value variants (incl. values that collide with IMEM register names, 0x00, 0xFF). The rendered "
@@ -140,7 +140,29 @@ def check_case(res, buf: bytes, addr: int):
             v("second_round_changes_bytes", {"round1": out.hex(), "round2": out2.hex()})
     except BaseException as e:  # noqa: BLE001
         v("second_round_fails", {"error": f"{type(e).__name__}:{str(e)[:200]}"})
+    if not viol and "(" in tok.to_asm_text(toks) and not any(d["k"] == "rel" for d in ops):
+        _CLEAN.append((tok.to_asm_text(toks), out))     # position-independent text that round-trips alone
     return viol, shape, tags
+
+
+_CLEAN = []
+
+
+def check_listing(res, entries, addr=0x30000):
+    """Texts that round-trip one by one must also round-trip as ONE listing (a disassembly is re-assembled as a whole):
+    bytes of the listing == concatenation of the single-line assemblies."""
+    from sc62015.pysc62015.sc_asm import Assembler
+    src = f".ORG 0x{addr:05X}\n" + "".join(f"    {t}\n" for t, _ in entries)
+    want = b"".join(b for _, b in entries)
+    res.monitor("listing_reassemble")
+    try:
+        got = bytes(Assembler().assemble(src).as_binary())
+    except BaseException as e:  # noqa: BLE001
+        res.violation({"clause": "listing_rejected"}, {"lines": [t for t, _ in entries]}, f"{type(e).__name__}:{str(e)[:200]}")
+        return
+    if got != want:
+        res.violation({"clause": "listing_differs_from_single_lines"}, {"lines": [t for t, _ in entries]},
+                      {"listing": got.hex(), "single_lines": want.hex()})
 
 
 def mech_tags(ins, ops):
@@ -236,6 +258,9 @@ def run_shard(spec) -> Result:
                 res.sample({"bytes": buf.hex()[:16], "shape": list(shape2)})
         for x in viol:
             res.violation(x["sig"], x["case"], x["detail"])
+        if len(_CLEAN) >= 8:
+            check_listing(res, _CLEAN[:8])
+            del _CLEAN[:8]
     return res
 
 
